@@ -190,7 +190,8 @@ Fixpoint pg_loop (fuel : nat) (td : option transport_dict) (ad : option app_dict
       else
         let* old := arr_get fields fi in
         let '(rem, r) := extract_field (mp_raw_bytes st) in
-        let* t := match r with Ok t => Ok t | Err _ => Ok old | Panic => Panic | OutOfFuel => OutOfFuel end in
+        (* fix F24: the error of extractField is no longer ignored inside a group (it used to leave the slot as it was) *)
+        let* t := r in
         let* fields' := arr_set fields fi t in
         let st1 := mp_set_trailer_bytes (mp_parsed st fi fields' rem) rem in
         let hdr := m_header (mp_msg st1) in
